@@ -63,14 +63,14 @@ func specVol(sb *strings.Builder, v *Vol) bool {
 	}
 	xh := "N"
 	if v.ExtHeader {
-		end := hl + 20 + len(v.ExtData)
+		end := hl + v.ExtPre + 20 + len(v.ExtData)
 		off = align(end, 8)
-		xh = fmt.Sprintf("X %s %s %s", H(v.ExtName[:]), H(v.ExtData), H(img[end:off]))
+		xh = fmt.Sprintf("X %s %s %s %s", H(img[hl:hl+v.ExtPre]), H(v.ExtName[:]), H(v.ExtData), H(img[end:off]))
 	}
 	for _, f := range v.Files {
 		off = align(off, 8)
 		hl := 24
-		if f.Secs == nil && f.LargeForm {
+		if f.LargeForm {
 			hl = 32
 		}
 		if a := AttrAlign(f.Attr); a != 1 {
@@ -109,6 +109,9 @@ func specVol(sb *strings.Builder, v *Vol) bool {
 			}
 			fmt.Fprintf(sb, " %s %s %x %x %x %x %x %s", tag, H(f.GUID[:]), fb[16], fb[17], f.Type, fb[19], f.State, H(f.Body))
 			continue
+		}
+		if f.LargeForm {
+			return false // a sectioned file in the large form is outside the C01 grammar
 		}
 		fmt.Fprintf(sb, " FS %s %x %x %x %x", H(f.GUID[:]), f.Type, f.Attr&^1, f.State, len(f.Secs))
 		for _, s := range f.Secs {
